@@ -470,6 +470,34 @@ def run(project: Project, rep, tier: str):
     if chain:
         dtype_rule.run_on(project, rep, "NM-DTYPE", chain)
     rep.floor("NM-DTYPE", 1)
+    # NM-ALLDEPTHS: the p-norm sums the integrals of EVERY depth and every segment: a loop over the depths (or over the pairs of
+    # a depth) that can be left early drops the ones that come after — the depths of a difference of landscapes are not nested,
+    # a zero depth may be followed by a non-zero one
+    pn = project.functions.get("persim.landscapes.auxiliary._p_norm")
+    if pn is not None:
+        from .common import fn_view as _fv
+        fv_ = _fv(project, pn)
+        data_params = set(pn.params[1:2]) | {"critical_pairs"}
+        loops_ = [n for n in ast.walk(fv_) if isinstance(n, ast.For)]
+        seen_ = 0
+        derived_ = set(data_params)
+        for lp in loops_:
+            names_ = {x.id for x in ast.walk(lp.iter) if isinstance(x, ast.Name)}
+            if names_ & derived_:
+                seen_ += 1
+                derived_ |= {x.id for x in ast.walk(lp.target) if isinstance(x, ast.Name)}
+                inner_ = [n for st in lp.body for n in ast.walk(st) if isinstance(n, (ast.For, ast.While))]
+                leaves_ = [x for st in lp.body for x in ast.walk(st) if isinstance(x, (ast.Break, ast.Return))
+                           and not (isinstance(x, ast.Break) and any(x is y for il in inner_ for st2 in il.body + il.orelse for y in ast.walk(st2)))]
+                if leaves_:
+                    rep.refuted("NM-ALLDEPTHS", pn, leaves_[0],
+                                f"the loop `for {ast.unparse(lp.target)[:30]} in {ast.unparse(lp.iter)[:40]}` over the landscape's data is left "
+                                f"by `{ast.unparse(leaves_[0])[:40]}`: what comes after that point is not integrated",
+                                construct=f"{pn.qualname}: early exit from the loop over depths / segments")
+                else:
+                    rep.discharged("NM-ALLDEPTHS", pn, lp, "the loop over the landscape's data runs to the end", nontrivial=False)
+        if not seen_:
+            rep.discharged("NM-ALLDEPTHS", pn, pn.node, "no explicit loop over the depths (a vectorised sum)", nontrivial=False)
     for rn, n in (("NM-FORM", 0 if SHAPES_STATUS.get("v") == "ok" else 1), ("NM-HOM", 0 if SHAPES_STATUS.get("v") == "ok" else 1),
                   ("NM-ARMS", 0 if SHAPES_STATUS.get("v") == "ok" else 1), ("NM-SUP", 4), ("NM-WIRE", 4)):
         rep.floor(rn, n)
